@@ -24,4 +24,8 @@ CHECKS = {
   "note": "encode/decode fidelity is addressed as transcribe-enumerate-compare; large payloads (to 1 MiB) are round-tripped on the Go side only",
   "technique": "TLA+ operators checked by TLC + function-trace validation",
  },
+ "C12": {
+  "text": "TLC checks the life-cycle specification GBNLife.tla (five-step Close body under a once guard, loop exits, FIN, blocked callers) for all interleavings and three transport conditions (NoLeak, CloseCompletes, BlockedCallersWake, PeerLearns, Idempotent); real connections are closed at many instants of five scenarios by single/both/repeated/concurrent callers under four transport conditions and the recorded life-cycle events, call durations and the final goroutine inventory are validated against the specification.",
+  "note": "close instants sampled on a time grid; FIN-send-blocks scenarios run in real time (sync.Once waits are not durable in a synctest bubble); transport honours ctx; GBN level only",
+ },
 }
